@@ -336,7 +336,7 @@ pub fn main(twins: &'static [Twin]) {
         let has = |x: &str| t.tags.split(',').any(|y| y == x);
         let want = match prop.as_str() {
             "C02" => has("wrap"),
-            "C11" => has("cap"),
+            "C11" => has("cap") || has("big"),
             "C17" => has("big") || has("nest"),
             // nested spawn macros: inherited thread names `<caller>_join_<i>_join_<j>` (innermost branches log their thread name)
             "C08" => has("nest") && t.tags.contains("spawn"),
@@ -411,7 +411,7 @@ pub fn main(twins: &'static [Twin]) {
             if multiset(&ml, K::Cap) != multiset(&rl, K::Cap) {
                 msgs.push(format!("capture evaluations differ (multiset): macro {:?}, reference {:?}", multiset(&ml, K::Cap), multiset(&rl, K::Cap)));
             }
-            if prop == "C17" && has("big") {
+            if (prop == "C17" || prop == "C11") && has("big") {
                 // captures are evaluated by the caller before each step, in branch-then-position order:
                 // their global sequence is deterministic in every macro kind
                 let seq = |l: &[Ev]| l.iter().filter(|e| e.k == K::Cap).map(|e| e.id).collect::<Vec<_>>();
